@@ -3,7 +3,7 @@
 # (/tmp/seed/<Cxx>/wt): demo passes without the change, fails with it, existing suite passes with it.
 ID=$1; V=$2
 WT=/tmp/seed/$ID/wt; OUT=/tmp/seed/$ID/out
-case "$V" in a|b) ;; c|d) OUT=/tmp/seed/$ID/out2 ;; e|f) OUT=/tmp/seed/$ID/out3 ;; g|h) OUT=/tmp/seed/$ID/out4 ;; i|j) OUT=/tmp/seed/$ID/out5 ;; *) OUT=/tmp/seed/$ID/out6 ;; esac
+case "$V" in a|b) ;; c|d) OUT=/tmp/seed/$ID/out2 ;; e|f) OUT=/tmp/seed/$ID/out3 ;; g|h) OUT=/tmp/seed/$ID/out4 ;; i|j) OUT=/tmp/seed/$ID/out5 ;; m) OUT=/tmp/seed/$ID/out7 ;; *) OUT=/tmp/seed/$ID/out6 ;; esac
 export CARGO_TARGET_DIR=$WT/target CARGO_NET_OFFLINE=true
 cd $WT || exit 3
 clean() { git checkout -q -- . ; git clean -fdq -e target; }
